@@ -14,7 +14,7 @@ from ..refs import tlvcfg
 ID = "C11"
 LEVEL = "exploration"
 RULE = (
-    "history = sequence of operations over {set_config(c0..c18) without / with additional TLV blocks, derive_comments(c), derive_auth_blocks(c, ecc|cust), append / insert-at-0 / insert-in-middle "
+    "history = sequence of operations over {set_config(c0..c19, incl. the empty dictionary) without / with additional TLV blocks, derive_comments(c), derive_auth_blocks(c, ecc|cust), append / insert-at-0 / insert-in-middle "
     "of a firmware component with or without TYPE tag, write+read back (replacing the object), foreign comment edit, write-and-check keeping the same object}; ALL sequences up to length 4 (quick) / 5 "
     "(thorough) over a reduced 10-letter alphabet plus seeded random sequences of length 5..25 over the full alphabet; the model is compared with the real "
     "objects after every operation. distinct = digest of the operation sequence; non-trivial = contains at least one set_config or derive operation"
@@ -58,6 +58,8 @@ CONFIGS.append({CODE: bytes([0x4A] * 8), (K, 7): b"\x03", (K, 5): (12).to_bytes(
 CONFIGS.append({CODE: bytes([0x4B] * 8), (K, 1): (55).to_bytes(2, "big"), (K, 5): (6).to_bytes(2, "big"), (K, 7): b"\x00", (K, 6): b"V0"})
 CONFIGS.append({CODE: bytes([0x4C] * 8), (K, 4): b"\x00\x00", (K, 3): b"DevV0"})
 CONFIGS.append({CODE: bytes([0x4D] * 8), (K, 7): b"", (K, 6): b"EmptyVersion"})
+# the empty configuration (still a configuration: one component holding the terminator only)
+CONFIGS.append({})
 NCFG = len(CONFIGS)
 CUST_KEY = bytes([0x12, 0x34] * 8)
 
@@ -181,7 +183,11 @@ class Runner:
         elif kind in ("append", "insert0", "insertmid"):
             self.counter += 1
             desc = {0xC1: b"\x00", 0xC8: bytes([self.counter % 256])}
-            if op[1]:
+            if op[1] == 4:
+                desc[0xC3] = b"\x00\x03"  # a TYPE tag of two bytes: NOT the configuration's tag value 03
+            elif op[1] == 5:
+                desc[0xC3] = b"\x03\x00"
+            elif op[1]:
                 desc[0xC3] = bytes([op[1] - 1])  # TYPE loader/peripheral/main
             comp = BF.Bf3Component(desc, bytes([self.counter % 256]) * (1 + self.counter % 20))
             val = comp_value(comp)
@@ -316,7 +322,7 @@ class Runner:
 ALPHA_SMALL = [("set", 0), ("set", 1), ("comments", 0), ("comments", 3), ("auth", 0, False), ("auth", 3, True), ("append", 3), ("insert0", 0), ("writeread",), ("writecheck",)]
 ALPHA_FULL = (
     [("set", i) for i in range(NCFG)] + [("setx", i) for i in (0, 1, 3, 0, 1)] + [("comments", i) for i in range(NCFG)] + [("auth", i, c) for i in range(NCFG) for c in (False, True)]
-    + [("append", t) for t in (0, 1, 2, 3)] + [("insert0", t) for t in (0, 1, 3)] + [("insertmid", t) for t in (0, 2)] + [("writeread",), ("writecheck",), ("writecheck",), ("comment", "set"), ("comment", "del")]
+    + [("append", t) for t in (0, 1, 2, 3, 4, 5)] + [("insert0", t) for t in (0, 1, 3, 4)] + [("insertmid", t) for t in (0, 2, 4)] + [("writeread",), ("writecheck",), ("writecheck",), ("comment", "set"), ("comment", "del")]
 )
 
 
@@ -328,6 +334,10 @@ def run_sequence(ns, ctx, seq):
     saw_typeless_before = saw_typeless_after = False
     for i, op in enumerate(seq):
         ctx.bin("op_" + op[0])
+        if op[0] in ("append", "insert0", "insertmid") and op[1] in (4, 5):
+            ctx.bin("component_with_two_byte_type_tag")
+        if op[0] in ("set", "setx") and not CONFIGS[op[1]]:
+            ctx.bin("empty_configuration")
         if op[0] in ("append", "insert0", "insertmid") and op[1] == 0:
             if r.m.config is None or op[0] == "insert0":
                 ctx.bin("typeless_component_before_configuration")
@@ -371,7 +381,7 @@ def plan(tier, seed):
 
 
 def mandatory_bins(tier):
-    return ["op_set", "op_setx", "op_comments", "op_auth", "op_append", "op_insert0", "op_insertmid", "op_writeread", "op_writecheck", "op_comment", "op_writeread_bec2", "op_writeread_bf3",
+    return ["op_set", "op_setx", "component_with_two_byte_type_tag", "empty_configuration", "op_comments", "op_auth", "op_append", "op_insert0", "op_insertmid", "op_writeread", "op_writecheck", "op_comment", "op_writeread_bec2", "op_writeread_bf3",
             "typeless_component_before_configuration", "typeless_component_after_configuration", "two_different_configurations_in_a_row", "derive_after_derive_other_mode", "all_sequences_up_to_bound", "every_ordered_pair_of_configurations", "bus_address_value_zero_or_empty_judged_against_fresh_object"]
 
 
